@@ -1,14 +1,95 @@
-(* C05 property theorems only: each closed by `exact <lemma>` with Print Assumptions beneath. *)
+(* C05 property theorems only: each closed by `exact <lemma>` with Print Assumptions beneath.
+   Model: MV.C05.Model (history machine over a heap of value cells); generated decision expressions: MV.C05.Gen. *)
 From Coq Require Import ZArith List Bool.
-Require Import MV.Lib.Base MV.C05.Types MV.C05.Gen MV.C05.Model MV.C05.Run MV.C05.Proofs.
+Import ListNotations.
+Require Import MV.Lib.Base MV.C05.Types MV.C05.Gen MV.C05.Model MV.C05.Run MV.C05.Proofs MV.C05.ProofsInv
+        MV.C05.ProofsMap MV.C05.ProofsAgree MV.C05.ProofsAlias MV.C05.ProofsTop.
 Open Scope Z_scope.
 
-(* _can_be_casted accepts exactly the widenings bool -> int -> float and the identity *)
+(* (full, on the generated table) _can_be_casted accepts exactly the identity and the widenings bool -> int -> float *)
 Theorem C05_cast_lattice : forall a b, can_be_casted a b = true <-> widens a b.
 Proof. exact cast_lattice. Qed.
 Print Assumptions C05_cast_lattice.
 
-(* the dense bounds test fires exactly on the indices outside [0, n): the size itself included *)
+(* (full) both storages run the same acceptance decision - same verdict, same error, same accepted components - and
+   accept exactly the values with `arity` components whose types widen to the attribute's type *)
+Theorem C05_accept_reject_same : forall t e v,
+  sparse_validate t e v = dense_validate t e v /\
+  (1 <= e -> ((exists r, sparse_validate t e v = inr r) <-> valid_value t e v) /\
+             ((exists r, dense_validate t e v = inr r) <-> valid_value t e v)).
+Proof. exact accept_reject_same. Qed.
+Print Assumptions C05_accept_reject_same.
+
+(* (full, on the generated test) the dense bounds test fires exactly on the indices outside [0, n): n itself included *)
 Theorem C05_dense_bounds : forall key n, dense_oob key n = true <-> ~ (0 <= key < n).
 Proof. exact dense_bounds. Qed.
 Print Assumptions C05_dense_bounds.
+
+(* (full) along every history, a read or write of a dense attribute answers OutOfBounds exactly at the indices
+   outside the container (this needs the alignment invariant: n_elem = len(container)) *)
+Theorem C05_dense_out_of_bounds : forall s a at_ ne st rows k, reachable s ->
+  lookup a (attrs s) = Some at_ -> ast at_ = Dense ne st rows ->
+  (snd (step s (GetItem a k)) = OErr EOob <-> ~ (0 <= k < sn s)) /\
+  (forall v, snd (step s (SetItem a k v)) = OErr EOob <-> ~ (0 <= k < sn s)).
+Proof. exact dense_out_of_bounds. Qed.
+Print Assumptions C05_dense_out_of_bounds.
+
+(* (full) total map with default: read = pure function of the state; read-after-write; frame; refused writes change
+   nothing; new attributes and cleared attributes read the default at every element index *)
+Theorem C05_total_map : forall s, reachable s ->
+  (forall a k s' w, step s (GetItem a k) = (s', w) ->
+                    w = get_obs s a k /\ forall b j, rd s' b j = rd s b j) /\
+  (forall a k v s', step s (SetItem a k v) = (s', OOk) ->
+                    exists at_ isv l, lookup a (attrs s) = Some at_ /\
+                                      sparse_validate (aty at_) (asz at_) v = inr (isv, l) /\
+                                      rd s' a k = Some (map (cast (aty at_)) l) /\
+                                      forall b j, (b, j) <> (a, k) -> rd s' b j = rd s b j) /\
+  (forall a k v s' e, step s (SetItem a k v) = (s', OErr e) -> forall b j, rd s' b j = rd s b j) /\
+  (forall a t k dense d s', 1 <= k -> step s (Create a t k dense d) = (s', OOk) ->
+                            (forall j, 0 <= j < sn s -> rd s' a j = Some (repeat (cast t (default_of t d)) (Z.to_nat k))) /\
+                            forall b j, b <> a -> rd s' b j = rd s b j) /\
+  (forall a s', step s (ClearAttr a) = (s', OOk) ->
+                exists at_, lookup a (attrs s) = Some at_ /\
+                            (forall j, 0 <= j < sn s -> rd s' a j = Some (default_row (hp s) at_)) /\
+                            forall b j, b <> a -> rd s' b j = rd s b j).
+Proof. exact total_map. Qed.
+Print Assumptions C05_total_map.
+
+(* (full) growth (append, += list, += container, += self) keeps every stored value and the new elements read the default *)
+Theorem C05_growth_keeps_values : forall s o s' n l, reachable s -> op_ok o ->
+  step s o = (s', OGrow n l) -> o <> ClearAll ->
+  sn s <= sn s' /\
+  forall a at_, lookup a (attrs s) = Some at_ ->
+    (forall j, 0 <= j < sn s -> rd s' a j = rd s a j) /\
+    (forall j, sn s <= j < sn s' ->
+               match ast at_ with Sparse m => lookup j m = None | Dense _ _ _ => True end ->
+               rd s' a j = Some (default_row (hp s) at_)).
+Proof. exact growth_keeps_values. Qed.
+Print Assumptions C05_growth_keeps_values.
+
+(* (full) sparse = dense: the same history - writes, reads, growth, clearing, array export, creation, deletion - run
+   with every attribute sparse and with every attribute dense gives the same observations, provided reads and writes
+   address elements of the container *)
+Theorem C05_sparse_dense_agree : forall c h,
+  Forall op_ok h -> Forall shared_op h -> well_addressed 0 h ->
+  map pub (snd (run (init c) (map (force false) h))) = map pub (snd (run (init c) (map (force true) h))).
+Proof. exact sparse_dense_agree. Qed.
+Print Assumptions C05_sparse_dense_agree.
+
+(* (full) no aliasing: whatever happens between reading entry (a,i) and updating the value that read handed out,
+   the update changes no other entry of any attribute *)
+Theorem C05_no_aliasing : forall c h1 a i h2 cc x,
+  Forall op_ok h1 -> Forall op_ok h2 ->
+  let s1 := fst (run (init c) h1) in
+  let s1' := fst (step s1 (GetItem a i)) in
+  let r := length (refs s1) in
+  let s2 := fst (run s1' h2) in
+  length (refs s1') = S r ->
+  forall b j, (b, j) <> (a, i) -> rd (fst (step s2 (Mut r cc x))) b j = rd s2 b j.
+Proof. exact no_aliasing. Qed.
+Print Assumptions C05_no_aliasing.
+
+(* (full) alignment: after any history every dense attribute has n_elem = number of rows = len(container) *)
+Theorem C05_alignment : forall c h, Forall op_ok h -> aligned (fst (run (init c) h)).
+Proof. exact alignment. Qed.
+Print Assumptions C05_alignment.
